@@ -370,7 +370,15 @@ class ResourceInterrupted(ResourceConstraint):
                 if is_interruptible:
                     # add assertions for task duration based on the total count of overlapped periods
                     total_overlap = z3.Sum(*overlaps)
-                    conds.append(task._duration >= task.min_duration + total_overlap)
+                    lower_bound_assertion = (
+                        task._duration >= task.min_duration + total_overlap
+                    )
+                    if task.optional:
+                        # an unscheduled task has a zero duration
+                        lower_bound_assertion = z3.Implies(
+                            task._scheduled, lower_bound_assertion
+                        )
+                    conds.append(lower_bound_assertion)
                     if task.max_duration is not None:
                         conds.append(
                             task._duration <= task.max_duration + total_overlap
@@ -531,7 +539,15 @@ class ResourcePeriodicallyInterrupted(ResourceConstraint):
                 if is_interruptible:
                     # add assertions for task duration based on the total count of overlapped periods
                     total_overlap = z3.Sum(*overlaps)
-                    conds.append(task._duration >= task.min_duration + total_overlap)
+                    lower_bound_assertion = (
+                        task._duration >= task.min_duration + total_overlap
+                    )
+                    if task.optional:
+                        # an unscheduled task has a zero duration
+                        lower_bound_assertion = z3.Implies(
+                            task._scheduled, lower_bound_assertion
+                        )
+                    conds.append(lower_bound_assertion)
                     if task.max_duration is not None:
                         conds.append(
                             task._duration <= task.max_duration + total_overlap
